@@ -3,7 +3,9 @@ package c05
 import (
 	"context"
 	"fmt"
+	"os"
 	"strings"
+	"sync/atomic"
 	"testing"
 	"testing/synctest"
 	"time"
@@ -25,7 +27,14 @@ type outcome struct {
 }
 
 func body(t *testing.T, c *explore.Ctx, pc *world.ProducerChain) (out outcome) {
-	synctest.Test(t, func(t *testing.T) { out = bubble(c, pc) })
+	synctest.Test(t, func(t *testing.T) { out = bubble(c, pc, false) })
+	return
+}
+
+// kvBody is body with the repository's real executor (apps/testapp/kv.KVExecutor over its own durable database,
+// see kv_test.go) as the execution layer; the executor's commits are crash points as well.
+func kvBody(t *testing.T, c *explore.Ctx, pc *world.ProducerChain) (out outcome) {
+	synctest.Test(t, func(t *testing.T) { out = bubble(c, pc, true) })
 	return
 }
 
@@ -42,30 +51,44 @@ func kindOf(w world.Write) string {
 	return "other"
 }
 
-func bubble(c *explore.Ctx, pc *world.ProducerChain) (out outcome) {
+func bubble(c *explore.Ctx, pc *world.ProducerChain, kvExec bool) (out outcome) {
 	env := world.NewEnv()
 	p := world.Params{InitialHeight: pc.Initial, BlockTime: 1000 * time.Hour, DABlockTime: 1000 * time.Hour}
 	var tags []string
 	last := "boot"
 	armed := false
-	onWrite := func(idx int, w world.Write) bool {
+	var n *world.Node
+	crashPoint := func(kind string) bool {
 		if !armed {
 			return false
 		}
 		if c.Choose("crash", 2) == 1 {
-			out.trace = append(out.trace, fmt.Sprintf("CRASH(after %s, before %s)", last, kindOf(w)))
-			tags = append(tags, "crash:after["+last+"]before["+kindOf(w)+"]")
+			out.trace = append(out.trace, fmt.Sprintf("CRASH(after %s, before %s)", last, kind))
+			tags = append(tags, "crash:after["+last+"]before["+kind+"]")
+			if n.Height() < pc.Initial {
+				tags = append(tags, "crash:in-first-block")
+			}
 			return true
 		}
-		last = kindOf(w)
+		last = kind
 		return false
 	}
-	var n *world.Node
+	onWrite := func(idx int, w world.Write) bool { return crashPoint(kindOf(w)) }
+	opts := world.NodeOpts{OnWrite: onWrite}
+	if kvExec {
+		tags = append(tags, "kv-executor")
+		if len(pc.Txs[0]) > 0 {
+			tags = append(tags, "first-block-nonempty")
+		}
+		// the executor's database: a second durable store of the same process; its commits are crash points too
+		disk := &kvDisk{}
+		opts.ExecImpl = disk.open(env, func(idx int, w world.Write) bool { return crashPoint("exec-commit") })
+	}
 	var cancel context.CancelFunc
 	errCh := make(chan error, 8)
 	boot := func(img map[string][]byte) *world.Fail {
 		armed = false
-		nn, err := world.StartNode(p, env, img, world.NodeOpts{OnWrite: onWrite})
+		nn, err := world.StartNode(p, env, img, opts)
 		if err != nil {
 			return &world.Fail{Clause: "startup", Msg: "the full node cannot start on the persisted image: " + err.Error()}
 		}
@@ -220,7 +243,19 @@ func TestCheck(t *testing.T) {
 		"crash model as in C04 (process dies between two durable datastore writes; caches are lost); the executor is external and survives",
 		"before the first crash the events arrive in one of three canonical orders (interleaved ascending, all data then headers, descending); after a reboot the complete event set is delivered again in every order within the order budget",
 		"chains without two identical non-empty transaction lists (that stall is C02's known finding)",
+		"real-executor part: the execution layer is the repository's apps/testapp/kv.KVExecutor built by the hook VerifNewKVExecutorOn on a logging datastore that survives the process (stands for its badger directory; atomic batch commits); every life opens a new executor on it; producer chains come from a real aggregator over a KVExecutor of its own, a non-empty block at the initial height is built by the aggregator's own createBlock and taken by publishBlock as the pending block of that height",
 		"ingress level: DA-only full node with all loops under the cooperative scheduler, blobs within <=1/2 deviations from the in-order placement on 3 DA heights (incl. 'everything already on the DA layer'), harness-side event queues with <=1 deviation from the canonical delivery order, one crash before any durable write, reboot without caches; liveness under continued operation (the chain's next block is published afterwards)",
+	}
+	// real-executor part: chains of 1..nKV blocks INCLUDING the block at the initial height
+	nKV := vf.Pick(r, 2, 3)
+	kvBudgets := vf.Pick(r, map[string]int{"crash": 2, "order": 2}, map[string]int{"crash": 2, "order": 3})
+	var kvJobs []string
+	for k := 1; k <= nKV; k++ {
+		for _, pt := range world.Patterns("eab", k) {
+			if !world.HasRepeatedNonEmpty(pt) {
+				kvJobs = append(kvJobs, pt)
+			}
+		}
 	}
 	var jobs []string
 	for k := 1; k <= nAbove; k++ {
@@ -234,6 +269,7 @@ func TestCheck(t *testing.T) {
 		var h struct {
 			Pattern string
 			Ingress bool
+			KV      bool
 			Choices []explore.Point
 		}
 		if _, err := r.LoadReplay(&h); err != nil {
@@ -246,6 +282,17 @@ func TestCheck(t *testing.T) {
 					r.Report(vf.Violation{Clause: o.fail.Clause, Tags: o.tags, Msg: o.fail.Msg, History: h})
 				}
 			})
+		} else if h.KV {
+			if pc, err := buildKVChain(h.Pattern); err != nil {
+				r.EngineError(err.Error())
+			} else {
+				explore.ReplayOne(h.Choices, func(c *explore.Ctx) {
+					if o := kvBody(t, c, pc); o.fail != nil {
+						fmt.Println(o.fail.Msg, o.trace)
+						r.Report(vf.Violation{Clause: o.fail.Clause, Tags: o.tags, Msg: o.fail.Msg, History: h})
+					}
+				})
+			}
 		} else if pc, err := world.BuildChain(h.Pattern, 1); err != nil {
 			r.EngineError(err.Error())
 		} else {
@@ -259,9 +306,66 @@ func TestCheck(t *testing.T) {
 		r.Finish(vf.Coverage{Evaluations: 1, DistinctNontrivial: 1})
 		return
 	}
-	deadline := time.Now().Add(vf.Pick(r, 100*time.Second, 25*time.Minute))
+	deadline := time.Now().Add(vf.Pick(r, 300*time.Second, 25*time.Minute))
 	var caps []string
 	var total explore.Stats
+	// development aid: VERIF_C05_PARTS=kv,main,ingress runs only the named parts; a skipped part is reported as a cap
+	skip := func(part string) bool {
+		sel := os.Getenv("VERIF_C05_PARTS")
+		if sel == "" || strings.Contains(","+sel+",", ","+part+",") {
+			return false
+		}
+		caps = append(caps, "part "+part+" skipped by VERIF_C05_PARTS")
+		return true
+	}
+	if skip("kv") {
+		kvJobs = nil
+	}
+	if skip("main") {
+		jobs = nil
+	}
+	ingressJobs := vf.Pick(r, []string{"ab"}, []string{"ab", "ea"})
+	if skip("ingress") {
+		ingressJobs = nil
+	}
+	var nSamples atomic.Int32 // evidence keeps the first 6 samples: 2 of the real-executor part, 2 of the main part, the rest ingress
+	// real-executor part: the same crash/restart histories over apps/testapp/kv.KVExecutor (kv_test.go)
+	var kvStats explore.Stats
+	for _, pt := range kvJobs {
+		pc, err := buildKVChain(pt)
+		if err != nil {
+			r.EngineError("kv producer chain " + pt + ": " + err.Error())
+			continue
+		}
+		left := time.Until(deadline)
+		if left <= 0 {
+			caps = append(caps, "deadline reached before kv-executor pattern "+pt)
+			break
+		}
+		st := explore.Explore(explore.Config{Budgets: kvBudgets, Deadline: left}, func(c *explore.Ctx) {
+			o := kvBody(t, c, pc)
+			if o.fail != nil {
+				r.Report(vf.Violation{Clause: o.fail.Clause, Tags: o.tags, Msg: fmt.Sprintf("[real KVExecutor, chain %q (first letter = block at the initial height)] %s\n trace: %s", pt, o.fail.Msg, strings.Join(o.trace, " ")), Cost: len(o.trace), History: map[string]any{"Pattern": pt, "KV": true, "Choices": c.Choices()}})
+				r.Outcome("KV:fail:" + o.fail.Clause)
+				return
+			}
+			tr := strings.Join(o.trace, " ")
+			r.Outcome("KV:" + pt + ":" + tr)
+			if strings.Contains(tr, "exec-commit, before") && len(pc.Txs[0]) > 0 && strings.Count(tr, "CRASH") == 1 && nSamples.Add(1) <= 2 {
+				r.Sample(map[string]any{"level": "kv-executor", "chain": pt, "trace": tr})
+			}
+		})
+		kvStats.Executions += st.Executions
+		kvStats.Points += st.Points
+		for _, m := range st.Nondet {
+			r.EngineError("nondeterminism (kv-executor part): " + m)
+		}
+		if st.Capped != "" {
+			caps = append(caps, "kv-executor "+pt+": "+st.Capped)
+		}
+	}
+	total.Executions += kvStats.Executions
+	total.Points += kvStats.Points
 	for _, pt := range jobs {
 		pc, err := world.BuildChain(pt, 1)
 		if err != nil {
@@ -281,7 +385,7 @@ func TestCheck(t *testing.T) {
 				return
 			}
 			r.Outcome(pt + ":" + strings.Join(o.trace, " "))
-			if strings.Contains(strings.Join(o.trace, " "), "CRASH") {
+			if strings.Contains(strings.Join(o.trace, " "), "CRASH") && nSamples.Add(1) <= 4 {
 				r.Sample(map[string]any{"chain": "genesis+" + pt, "trace": strings.Join(o.trace, " ")})
 			}
 		})
@@ -297,7 +401,7 @@ func TestCheck(t *testing.T) {
 	// ingress level: DA-only full node, crash anywhere in block application, recovery by its own DA scan
 	l2budgets := vf.Pick(r, map[string]int{"place": 1, "order": 1, "crash": 1}, map[string]int{"place": 2, "order": 1, "crash": 1})
 	var l2 explore.Stats
-	for _, pt := range vf.Pick(r, []string{"ab"}, []string{"ab", "ea"}) {
+	for _, pt := range ingressJobs {
 		pc, err := world.BuildChain(pt+"e", 1)
 		if err != nil {
 			r.EngineError(err.Error())
@@ -329,12 +433,13 @@ func TestCheck(t *testing.T) {
 			caps = append(caps, "ingress "+pt+": "+st.Capped)
 		}
 	}
+	fmt.Printf("C05 parts (this process): real-executor executions=%d points=%d; ingress executions=%d points=%d; main executions=%d points=%d\n", kvStats.Executions, kvStats.Points, l2.Executions, l2.Points, total.Executions-kvStats.Executions, total.Points-kvStats.Points)
 	total.Executions += l2.Executions
 	total.Points += l2.Points
 	r.Finish(vf.Coverage{
 		Evaluations: total.Executions, DistinctNontrivial: int64(r.DistinctOutcomes()), States: total.Executions, Transitions: total.Points,
-		Rule:       "for every producer chain pattern (1..n blocks above genesis over {empty,A,B} without repeated non-empty lists) × 3 pre-crash delivery orders: every crash point among all durable writes of block application (recurring during recovery, budget `crash`), then the complete event set again in every order within the order budget; distinct = distinct traces",
+		Rule:       "for every producer chain pattern (1..n blocks above genesis over {empty,A,B} without repeated non-empty lists) × 3 pre-crash delivery orders: every crash point among all durable writes of block application (recurring during recovery, budget `crash`), then the complete event set again in every order within the order budget; distinct = distinct traces. Real-executor part: the same histories with apps/testapp/kv.KVExecutor (own durable database, reopened by every life) as execution layer, for every chain of 1..kv_blocks blocks over {empty, A={k1=a,k2=a}, B={k1=b}} where the first letter is the block AT the initial height (so the first applied block may change the executor state while the node store has no state yet); crash points = every durable write of the node store AND every commit of the executor database",
 		Exhaustive: true, Caps: caps,
-		Bounds:     map[string]any{"blocks_above_genesis": nAbove, "patterns": len(jobs), "budgets": budgets},
+		Bounds:     map[string]any{"blocks_above_genesis": nAbove, "patterns": len(jobs), "budgets": budgets, "kv_executor": map[string]any{"kv_blocks_incl_initial": nKV, "patterns": len(kvJobs), "budgets": kvBudgets}},
 	})
 }
